@@ -975,6 +975,15 @@ func (d *docState) writePageObjects(p *pageState, lines []Line, set map[int]Obj,
 		prog = padProgram(prog, 4200+r.Intn(1500), r)
 	case 2:
 		prog = padProgram(prog, 8300+r.Intn(3000), r)
+	case 3:
+		// more than a megabyte of very regular drawing in front of the text (rules of a form,
+		// a hatched background): compresses several hundred times, and what a reader does not
+		// decode to the end loses the text
+		n := (1100000 + r.Intn(900000)) / 16
+		if p != d.pages[0] && len(d.pages) > 0 {
+			n = 40 // one such page per document is enough
+		}
+		prog = append([]byte(strings.Repeat("0 0 m 10 10 l S\n", n)), prog...)
 	}
 	pieces := splitProgram(prog, sp.Split, r)
 	p.content = p.content[:0]
